@@ -60,6 +60,10 @@ pub enum Simple {
     Fail(Fail),
     /// assignment-only command `v0=... v1=...`: each value is plain text (None) or `$(st N)`
     Assigns(Vec<Option<u8>>),
+    /// a simple command whose words all expand to nothing, so that there is no command name:
+    /// each word is `$nosuchvar` (None) or `$(st N)`; status = that of the last command
+    /// substitution performed, or zero (XCU 2.9.1)
+    NoName(Vec<Option<u8>>),
     /// `astN`, an alias for `st N` defined on an earlier line
     AliasSt(u8),
 }
@@ -103,6 +107,10 @@ pub struct Program {
 // Sanitising: make an arbitrary generated tree a valid, terminating, POSIX-defined program
 
 struct SanCtx {
+    /// inside a subshell environment that was entered from within a function body: `return N`
+    /// there ends that subshell with status N (leaving the function as far as the subshell is
+    /// concerned; the manual's fallback "works like exit" gives the same observable result)
+    ret_in_subshell: bool,
     loop_depth: u8,
     /// lexically inside the body of this function (no subshell boundary in between)
     func: Option<u8>,
@@ -113,7 +121,7 @@ struct SanCtx {
 pub fn sanitize(p: &mut Program, allow_fail: bool) {
     let mut next_loop = 0u16;
     let mut next_mark = 1u16;
-    let mut ctx = SanCtx { loop_depth: 0, func: None, min_target: 0 };
+    let mut ctx = SanCtx { ret_in_subshell: false, loop_depth: 0, func: None, min_target: 0 };
     san(&mut p.body, &mut ctx, &mut next_loop, &mut next_mark, allow_fail, 0);
 }
 
@@ -143,7 +151,7 @@ fn san(n: &mut Node, c: &mut SanCtx, nl: &mut u16, nm: &mut u16, allow_fail: boo
                     }
                 }
                 Simple::Return(v) => {
-                    if c.func.is_none() {
+                    if c.func.is_none() && !c.ret_in_subshell {
                         *s = Simple::St(v.unwrap_or(0));
                     }
                 }
@@ -151,6 +159,15 @@ fn san(n: &mut Node, c: &mut SanCtx, nl: &mut u16, nm: &mut u16, allow_fail: boo
                 Simple::Cnt(id, limit) => {
                     *id %= 4;
                     *limit %= 4;
+                }
+                Simple::NoName(vals) => {
+                    if vals.is_empty() {
+                        vals.push(Some(0));
+                    }
+                    vals.truncate(3);
+                    for v in vals.iter_mut().flatten() {
+                        *v %= 4;
+                    }
                 }
                 Simple::Assigns(vals) => {
                     if vals.is_empty() {
@@ -205,7 +222,7 @@ fn san(n: &mut Node, c: &mut SanCtx, nl: &mut u16, nm: &mut u16, allow_fail: boo
         }
         Node::Not(x) | Node::Group(x) => san(x, c, nl, nm, allow_fail, depth + 1),
         Node::Subshell(x) => {
-            let mut c2 = SanCtx { loop_depth: 0, func: None, min_target: c.min_target };
+            let mut c2 = SanCtx { ret_in_subshell: c.func.is_some() || c.ret_in_subshell, loop_depth: 0, func: None, min_target: c.min_target };
             san(x, &mut c2, nl, nm, allow_fail, depth + 1);
         }
         Node::Pipe(v) => {
@@ -213,7 +230,7 @@ fn san(n: &mut Node, c: &mut SanCtx, nl: &mut u16, nm: &mut u16, allow_fail: boo
                 v.push(Node::Simple(Simple::Colon));
             }
             for x in v {
-                let mut c2 = SanCtx { loop_depth: 0, func: None, min_target: c.min_target };
+                let mut c2 = SanCtx { ret_in_subshell: c.func.is_some() || c.ret_in_subshell, loop_depth: 0, func: None, min_target: c.min_target };
                 san(x, &mut c2, nl, nm, allow_fail, depth + 1);
             }
         }
@@ -268,7 +285,7 @@ fn san(n: &mut Node, c: &mut SanCtx, nl: &mut u16, nm: &mut u16, allow_fail: boo
                 let inner = std::mem::replace(&mut **body, Node::Simple(Simple::Colon));
                 **body = Node::Group(Box::new(inner));
             }
-            let mut c2 = SanCtx { loop_depth: 0, func: Some(*idx), min_target: *idx + 1 };
+            let mut c2 = SanCtx { ret_in_subshell: false, loop_depth: 0, func: Some(*idx), min_target: *idx + 1 };
             san(body, &mut c2, nl, nm, allow_fail, depth + 1);
         }
     }
@@ -369,6 +386,17 @@ fn r_simple(s: &Simple, sf: &mut Surface, out: &mut String) {
                 match v {
                     None => out.push_str(&format!("v{i}=plain")),
                     Some(n) => out.push_str(&format!("v{i}=$(st {n})")),
+                }
+            }
+        }
+        Simple::NoName(vals) => {
+            for (i, v) in vals.iter().enumerate() {
+                if i > 0 {
+                    out.push_str(sp);
+                }
+                match v {
+                    None => out.push_str("$nosuchvar"),
+                    Some(n) => out.push_str(&format!("$(st {n})")),
                 }
             }
         }
@@ -803,6 +831,14 @@ impl<'a> Model<'a> {
                 // XCU 2.9.1: no command name => status of the last command substitution performed,
                 // or zero if there was none
                 self.class("assignment-only-command");
+                p.status = Sym::Known(vals.iter().rev().find_map(|v| *v).map_or(0, |n| n as i32));
+                for v in vals.iter().flatten() {
+                    let _ = v;
+                    self.children.push(vec![]);
+                }
+            }
+            Simple::NoName(vals) => {
+                self.class("command-without-name-after-expansion");
                 p.status = Sym::Known(vals.iter().rev().find_map(|v| *v).map_or(0, |n| n as i32));
                 for v in vals.iter().flatten() {
                     let _ = v;
